@@ -1,7 +1,8 @@
 // C09 harness: drives the loser tree classes of tlx/container/loser_tree.hpp through the caller protocol of the
 // model (coq/C09/LoserTree.v [drive], coq/C09/Spec.v [drive_g]) and prints the sequence of min_source() values.
 //
-// Case line:  <class>[:<elem>:<cmp>:<via>[:<store>]] <sentinel> <seq> <seq> ...     with <seq> = "-" (empty) or "k,k,k"
+// Case line:  <class>[:<elem>:<cmp>:<via>[:<store>]] <sentinel> [o=<i>,<i>,...] <seq> <seq> ...   with <seq> = "-" (empty) or "k,k,k"
+//   o=...   = order of the insert_start calls (a permutation of the player indices; default 0, 1, 2, ...)
 //   <class> = <P|C><G|U|V><S|N>   pointer/copy, guarded/unguarded/unguarded-any-keys, stable/unstable
 //             (V: keys may exceed the sentinel, the tree is consulted only while some current key beats it, as
 //              multiway_merge_loser_tree_combined does)
@@ -98,6 +99,9 @@ struct Stateful {
     }
 };
 
+//! order of the insert_start calls of the current case
+static std::vector<size_t> g_order;
+
 // ------------------------------------------------------------------------------------------------ key storage
 template <typename T>
 struct Feed {
@@ -125,7 +129,8 @@ static void drive(LT& lt, const std::vector<std::vector<T> >& seqs, bool guarded
     const Source k = static_cast<Source>(seqs.size());
     std::vector<size_t> pos(k, 0);
     Feed<T> feed(store, seqs);
-    for (Source i = 0; i < k; ++i) {
+    for (Source n = 0; n < k; ++n) {
+        const Source i = static_cast<Source>(g_order[n]);
         if (seqs[i].empty())
             lt.insert_start(nullptr, i, true);
         else {
@@ -159,7 +164,11 @@ static void drive_general(LT& lt, const std::vector<std::vector<T> >& seqs, cons
     const Source k = static_cast<Source>(seqs.size());
     std::vector<size_t> pos(k, 0);
     Feed<T> feed(store, seqs);
-    for (Source i = 0; i < k; ++i) { lt.insert_start(feed.key(i, 0), i, false); feed.done(); }
+    for (Source n = 0; n < k; ++n) {
+        const Source i = static_cast<Source>(g_order[n]);
+        lt.insert_start(feed.key(i, 0), i, false);
+        feed.done();
+    }
     lt.init();
     for (;;) {
         bool any = false;
@@ -314,7 +323,14 @@ int main(int argc, char** argv) {
         const std::string via = parts.size() >= 4 ? parts[3] : "d";
         const std::string store = parts.size() == 5 ? parts[4] : "p";
         std::vector<std::vector<long> > keys;
+        std::vector<size_t> order;
         while (ls >> tok) {
+            if (keys.empty() && tok.compare(0, 2, "o=") == 0) {
+                std::istringstream os(tok.substr(2));
+                std::string n;
+                while (std::getline(os, n, ',')) order.push_back(static_cast<size_t>(std::atol(n.c_str())));
+                continue;
+            }
             std::vector<long> s;
             if (tok != "-") {
                 std::istringstream ts(tok);
@@ -323,6 +339,15 @@ int main(int argc, char** argv) {
             }
             keys.push_back(std::move(s));
         }
+        if (order.empty())
+            for (size_t i = 0; i < keys.size(); ++i) order.push_back(i);
+        {
+            std::vector<int> seen(keys.size(), 0);
+            bool ok = order.size() == keys.size();
+            for (size_t i : order) { if (i >= keys.size() || seen[i]++) ok = false; }
+            if (!ok) { std::cout << "?order" << std::endl; continue; }
+        }
+        g_order = order;
         std::string out;
         const bool P = vs[0] == 'P';
         Flavor f{ vs[1], vs[2] == 'S', true, via.empty() ? 'd' : via[0], store.empty() ? 'p' : store[0] };
